@@ -63,6 +63,7 @@ fn main() {
         "C15" => props::c15::run(&mut rep, &tier, seed),
         "C16" => props::c16::run(&mut rep, &tier, seed),
         "C18" => props::c18::run(&mut rep, &tier, seed),
+        "C19" => props::c19::run(&mut rep, &tier, seed),
         "C20" => props::c20::run(&mut rep, &tier, seed),
         "C13" => props::c13::run(&mut rep, &tier, seed),
         "C14" => props::c14::run(&mut rep, &tier, seed),
